@@ -57,11 +57,20 @@ def own_region(f, adt_suffix, sw_block, arms, vi):
         if b == sw_block or b not in region:
             continue
         if vi in arms2:
+            # a decision tree may fall from this variant's test back into the general case (tuple patterns): what the own
+            # target still reaches is not foreign
+            mine = cfg.reachable(f, arms2[vi], cut_blocks={b})
             for vj, tgt in arms2.items():
                 if vj != vi and tgt != arms2[vi]:
-                    region -= cfg.dominated_region(f, tgt)
+                    region -= (cfg.dominated_region(f, tgt) - mine)
             if other is not None and other != arms2[vi]:
-                region -= cfg.dominated_region(f, other)
+                region -= (cfg.dominated_region(f, other) - mine)
+        elif other is not None:
+            # vi is handled by the wildcard of this nested match: the explicit arms belong to other variants
+            mine = cfg.reachable(f, other, cut_blocks={b})
+            for vj, tgt in arms2.items():
+                if tgt != other:
+                    region -= (cfg.dominated_region(f, tgt) - mine)
     return region
 
 
@@ -136,7 +145,40 @@ def binops(chk, facts, rule="C02.TABLE.binop", fname=EV + "Evaluator::partial_in
                where=f.where(seen[prim][0][1][1].get("l") if prim in seen else None), fn=f.name, key="%s:%s:%s" % (rule, vn, ";".join(p_.split(" at L")[0] for p_ in probs)),
                sample={"op": vn, "primitive": prim, "positions": {str(i): w for i, (w, _) in pos.items()}, "negated": negated})
     chk.floor(rule, "binary operators", n, floor)
-    # HasTag on a missing entity is false, GetTag an error: the NoSuchEntity arm
+    if rule != "C02.TABLE.binop":
+        return
+    # operand type tests are not path-dependent: an operand that the arm coerces to a type (get_as_entity / get_as_string /
+    # get_as_long / get_as_set ...) on some path is coerced on every path to a successful result of that arm
+    rule_c = "C02.TABLE.coerce"
+    nc = 0
+    for vi, tgt in sorted(arms.items()):
+        vn = r["variants"][vi]["name"]
+        region = own_region(f, "ast::ops::BinaryOp", b, arms, vi)
+        oks = set()
+        for bb in region:
+            blk = f.blocks[bb]
+            for s_ in blk["st"]:
+                if s_[0] == "a" and s_[2][0] == "agg" and s_[2][1][0] == "adt" and s_[2][1][2] == "Ok" and str(s_[2][1][1]).endswith("result::Result"):
+                    oks.add(bb)
+            t_ = blk["t"]
+            if t_[0] == "call" and t_[3] == [0] and not callee(t_).endswith("from_residual"):
+                oks.add(bb)
+        for operand in ("A1", "A2"):
+            sites = set()
+            kinds = set()
+            for bb in region:
+                t_ = f.blocks[bb]["t"]
+                if t_[0] == "call" and callee(t_).split("::")[-1].startswith("get_as_") and t_[2] and {x for x in L.operand_labels(t_[2][0]) if x in ("A1", "A2")} == {operand}:
+                    sites.add(bb)
+                    kinds.add(callee(t_).split("::")[-1])
+            if not sites:
+                continue
+            esc = sorted(cfg.reachable(f, tgt, cut_blocks=sites) & (oks - sites))
+            nc += 1
+            chk.ob(rule_c, "%s:%s" % (vn, operand), not esc,
+                   "%s: operand %s is type-tested (%s) on every path to a successful result of the arm: %s" % (vn, operand, "/".join(sorted(kinds)), "yes" if not esc else "no — a result at %s is produced without it" % [f.where(f.blocks[x]["t"][1].get("l") if f.blocks[x]["t"][0] == "call" else None) for x in esc][:2]),
+                   where=f.where(), fn=f.name, key="%s:%s:%s" % (rule_c, vn, operand), sample={"op": vn, "operand": operand, "coercions": sorted(kinds)})
+    chk.floor(rule_c, "coerced operands", nc, 10)
     return
 
 
